@@ -113,7 +113,13 @@ pub fn peephole_compile<'a>(
   let mut label_offsets: collections::Vec<usize> = bumpalo::vec![in alloc; 0; label_count];
 
   if label_count > u16::MAX as usize {
-    todo!("Really handle this");
+    return Err(bumpalo::vec![in alloc;
+      Diagnostic::error().with_message(format!(
+        "Function {} has too many branches, at most {} jump targets are supported.",
+        fun_builder.name(),
+        u16::MAX
+      ))
+    ]);
   }
 
   compute_label_offsets(&instructions, &mut label_offsets[..label_count]);
